@@ -95,6 +95,7 @@ ASSUMES = [
     "a focus item with 0 rows has no row to show: the 'one focus row visible' clause is not evaluated for it (counted as na:focus_has_zero_rows); all other clauses still apply",
     "when row texts are not unique (blank Edit lines) every consistent slice position is tried and the clauses are required of at least one (counted as ambiguous_window)",
     "keys are only sent while the ListBox has focus; set_focus is only called with existing positions on a non-empty list (IndexError is documented otherwise)",
+    "the harness keeps the last rendered ListBox canvas alive, as a display screen does, so CanvasCache may serve ListBox.render (a missing invalidation then shows as a stale, judged canvas)",
     "mouse-press clause is judged only when the press immediately follows a judged render at the same size/focus flag, so 'visible item at that cell' is read from the canvas",
 ]
 
